@@ -206,3 +206,105 @@ func rulePerReadState(c *Ctx) {
 		}
 	}
 }
+
+func init() {
+	register(&Rule{ID: "R16.buffer-agreement", Props: []string{"C16"}, Floor: 1,
+		Text: "one read of the connection is parsed by one call of the pipeline reader, which drains its source with a single Read into its own fixed array; whatever that Read leaves behind is parked until the next byte arrives from the peer, so a complete command at the end of a full read would go unanswered. Hence the two capacities agree: the length of the buffer handed to conn.Read in the connection loop (a constant) does not exceed the length of the array the pipeline reader reads into (a constant), and the reader reads into the whole array",
+		Run:  ruleBufferAgreement})
+}
+
+func ruleBufferAgreement(c *Ctx) {
+	ns := c.Func("internal/server", "Server", "netServe")
+	if ns == nil {
+		c.und("anchors", 0, "netServe not found")
+		return
+	}
+	info := ns.Info()
+	// K: the buffer handed to conn.Read
+	var k int64 = -1
+	var kpos ast.Node
+	ast.Inspect(ns.Decl.Body, func(n ast.Node) bool {
+		call, ok := n.(*ast.CallExpr)
+		if !ok || len(call.Args) != 1 {
+			return true
+		}
+		f := callee(info, call)
+		if f == nil || f.Name() != "Read" || !isNetConnRecv(info, call) {
+			return true
+		}
+		arg := call.Args[0]
+		if id, ok := ast.Unparen(arg).(*ast.Ident); ok {
+			// the make that defines it (later reslices of the same variable do not grow it)
+			var mk *ast.CallExpr
+			ast.Inspect(ns.Decl.Body, func(m ast.Node) bool {
+				as, ok := m.(*ast.AssignStmt)
+				if !ok || len(as.Lhs) != len(as.Rhs) {
+					return true
+				}
+				for i, l := range as.Lhs {
+					if lid, ok := ast.Unparen(l).(*ast.Ident); ok && info.ObjectOf(lid) == info.ObjectOf(id) {
+						if cl, ok := ast.Unparen(as.Rhs[i]).(*ast.CallExpr); ok {
+							if fid, ok := ast.Unparen(cl.Fun).(*ast.Ident); ok && fid.Name == "make" && len(cl.Args) >= 2 {
+								mk = cl
+							}
+						}
+					}
+				}
+				return true
+			})
+			if mk != nil {
+				if tv, ok := info.Types[mk.Args[len(mk.Args)-1]]; ok && tv.Value != nil {
+					if v, ok := constInt64(tv); ok {
+						k, kpos = v, mk
+					}
+				}
+			}
+		}
+		return true
+	})
+	if k < 0 {
+		c.und("connection-buffer", ns.Decl.Pos(), "the buffer handed to conn.Read is not a make with a constant length")
+		return
+	}
+	// N: the array the pipeline reader reads into
+	var nlen int64 = -1
+	var npos ast.Node
+	whole := false
+	for _, fn := range c.AllFuncs("internal/server") {
+		if recvNamed(fn.Obj) == nil || recvNamed(fn.Obj).Obj().Name() != "PipelineReader" {
+			continue
+		}
+		finfo := fn.Info()
+		ast.Inspect(fn.Decl.Body, func(n ast.Node) bool {
+			call, ok := n.(*ast.CallExpr)
+			if !ok || len(call.Args) != 1 {
+				return true
+			}
+			se, ok := ast.Unparen(call.Fun).(*ast.SelectorExpr)
+			if !ok || se.Sel.Name != "Read" {
+				return true
+			}
+			sl, ok := ast.Unparen(call.Args[0]).(*ast.SliceExpr)
+			if !ok {
+				return true
+			}
+			if arr, ok := finfo.TypeOf(sl.X).Underlying().(*types.Array); ok {
+				nlen, npos = arr.Len(), call
+				whole = sl.Low == nil && sl.High == nil
+			}
+			return true
+		})
+	}
+	if nlen < 0 {
+		c.und("reader-buffer", ns.Decl.Pos(), "the array the pipeline reader reads into was not found")
+		return
+	}
+	switch {
+	case !whole:
+		c.bad("capacities", npos.Pos(), "the pipeline reader reads into a part of its array: one call no longer drains what one conn.Read delivered")
+	case k > nlen:
+		c.bad("capacities", kpos.Pos(), "conn.Read can deliver %d bytes but the pipeline reader takes at most %d per call: after a full read the last bytes (a complete command, or its final newline) stay parked until the peer sends more, so the reply to a pipelined command depends on where the read boundary fell", k, nlen)
+	default:
+		c.ok("capacities", kpos.Pos(), true, "conn.Read delivers at most %d bytes and the pipeline reader takes up to %d per call", k, nlen)
+	}
+}
